@@ -59,6 +59,8 @@ type rig struct {
 	tbl     route.Table
 	gc      *route.GlobCache
 	matcher string
+	wsPlain *httptest.Server
+	wsTLS   *httptest.Server
 }
 
 func newRig() *rig {
@@ -74,7 +76,13 @@ func newRig() *rig {
 	return r
 }
 
-func (r *rig) close() { r.up.Close() }
+func (r *rig) close() {
+	r.up.Close()
+	if r.wsPlain != nil {
+		r.wsPlain.Close()
+		r.wsTLS.Close()
+	}
+}
 
 func (r *rig) serveUpstream(w http.ResponseWriter, req *http.Request) {
 	atomic.AddInt64(&r.hits, 1)
